@@ -1,6 +1,6 @@
 //! Catalogue of small concurrent programs, each explored over all schedules.
 
-use eyeball::{ObservableWriteGuard, SharedObservable};
+use eyeball::{Observable, ObservableWriteGuard, SharedObservable};
 use loom::thread;
 use std::task::Poll;
 
@@ -27,6 +27,7 @@ fn Entry(name: &str, prop: &'static str, what: &str, quick_bound: i64, thorough_
 pub fn catalogue() -> Vec<Entry> {
     let mut v = fixed();
     v.extend(generated_programs());
+    v.extend(generated_reader_programs());
     v.extend(generated_wake_programs());
     v.extend(generated_drop_programs());
     v
@@ -611,8 +612,58 @@ fn wake_program(ops: Vec<WOp>, nsubs: usize) {
     outcome(outs.join(" "));
 }
 
+/// The same with the unique `Observable` (no write guards there): the
+/// subscriber thread loops on next() until the Observable is dropped.
+fn wake_program_unique(ops: Vec<WOp>) {
+    let mut ob = Observable::new(0u32);
+    let mut sub = Observable::subscribe(&ob);
+    let h = thread::spawn(move || {
+        let mut seen = Vec::new();
+        while let Some(v) = block_on(sub.next()) {
+            seen.push(v);
+        }
+        (seen, sub.get())
+    });
+    let mut cur = 0u32;
+    for op in &ops {
+        match op {
+            WOp::Set | WOp::Guard2 => {
+                cur += 1;
+                Observable::set(&mut ob, cur);
+            }
+            WOp::Update => {
+                cur += 1;
+                Observable::update(&mut ob, |v| *v += 1);
+            }
+            WOp::SineSame => {
+                let r = Observable::set_if_not_eq(&mut ob, cur);
+                vassert(r.is_none(), || format!("unique wake program {ops:?}: set_if_not_eq(current) returned {r:?}"));
+            }
+        }
+    }
+    drop(ob);
+    let (seen, last) = h.join().unwrap();
+    vassert(seen.windows(2).all(|w| w[0] < w[1]) && seen.iter().all(|v| *v >= 1 && *v <= cur), || format!("unique wake program {ops:?}: the subscriber saw {seen:?} (final value {cur})"));
+    vassert(last == cur, || format!("unique wake program {ops:?}: after the end get() returned {last}, final value {cur}"));
+    outcome(format!("{seen:?}"));
+}
+
 fn generated_wake_programs() -> Vec<Entry> {
     let mut v = Vec::new();
+    for ops in [vec![], vec![WOp::Set], vec![WOp::Update], vec![WOp::SineSame], vec![WOp::Set, WOp::Set], vec![WOp::Set, WOp::SineSame], vec![WOp::Update, WOp::Set]] {
+        let name = format!("WU:{}", ops.iter().map(|o| format!("{o:?}")).collect::<Vec<_>>().join(","));
+        let ops2 = ops.clone();
+        v.push(Entry {
+            name,
+            prop: "C02",
+            what: format!("generated: unique Observable, subscriber thread looping on next() || main: {ops:?}; drop"),
+            quick_bound: 3,
+            thorough_bound: -1,
+            min_outcomes: 1,
+            body: Box::new(move || wake_program_unique(ops2.clone())),
+            thorough_only: false,
+        });
+    }
     let mut seqs: Vec<Vec<WOp>> = Vec::new();
     for a in WOPS {
         seqs.push(vec![a]);
@@ -719,6 +770,102 @@ fn generated_drop_programs() -> Vec<Entry> {
                 body: Box::new(move || drop_program(a, b)),
                 // the two-upgrades program has ~6*10^4 schedules at bound 2
                 thorough_only: a == HOp::DowngradeDropUpgrade && b == HOp::DowngradeDropUpgrade,
+            });
+        }
+    }
+    v
+}
+
+// ---------------------------------------------------------------- C04, generated readers
+
+/// Subscriber-side operations of the generated reader programs.
+#[derive(Clone, Copy, Debug, PartialEq, Eq)]
+enum ROp {
+    NextNow,
+    NextRefNow,
+    /// poll next() once (marks the value observed if it is Ready)
+    PollNext,
+    /// get(): never marks
+    Get,
+    /// read(): never marks
+    Read,
+}
+
+const ROPS: [ROp; 5] = [ROp::NextNow, ROp::NextRefNow, ROp::PollNext, ROp::Get, ROp::Read];
+
+/// Thread A increments the value `incs` times (values are distinct, so a value
+/// identifies its version); thread B owns a subscriber and runs `rops`. The
+/// values B sees never go backwards, and once A is done the subscriber's
+/// next() is Ready with the final value exactly if the last value B *marked
+/// observed* is older.
+fn reader_program(incs: u32, rops: Vec<ROp>) {
+    let ob = SharedObservable::new(0u32);
+    let mut sub = ob.subscribe();
+    let r2 = rops.clone();
+    let tb = thread::spawn(move || {
+        let mut seen: Vec<u32> = Vec::new();
+        let mut marked = 0u32;
+        for op in r2 {
+            match op {
+                ROp::NextNow => {
+                    let v = sub.next_now();
+                    seen.push(v);
+                    marked = v;
+                }
+                ROp::NextRefNow => {
+                    let v = *sub.next_ref_now();
+                    seen.push(v);
+                    marked = v;
+                }
+                ROp::PollNext => {
+                    if let Poll::Ready(Some(v)) = poll_once(sub.next()) {
+                        seen.push(v);
+                        marked = v;
+                    }
+                }
+                ROp::Get => seen.push(sub.get()),
+                ROp::Read => seen.push(*sub.read()),
+            }
+        }
+        (seen, marked, sub)
+    });
+    for _ in 0..incs {
+        ob.update(|v| *v += 1);
+    }
+    let (seen, marked, mut sub) = tb.join().unwrap();
+    vassert(seen.windows(2).all(|w| w[0] <= w[1]) && seen.iter().all(|v| *v <= incs), || format!("reader program {rops:?} vs {incs} increments: the subscriber saw {seen:?}"));
+    let p = poll_once(sub.next());
+    if marked < incs {
+        vassert(matches!(p, Poll::Ready(Some(v)) if v == incs), || format!("reader program {rops:?} vs {incs} increments: last value marked observed is {marked}, final value {incs}, but next() answers {p:?}"));
+    } else {
+        vassert(p.is_pending(), || format!("reader program {rops:?} vs {incs} increments: the final value {incs} was marked observed, but next() answers {p:?}"));
+    }
+    outcome(format!("seen={seen:?} marked={marked}"));
+}
+
+fn generated_reader_programs() -> Vec<Entry> {
+    let mut v = Vec::new();
+    let mut seqs: Vec<Vec<ROp>> = Vec::new();
+    for a in ROPS {
+        seqs.push(vec![a]);
+        for b in ROPS {
+            seqs.push(vec![a, b]);
+        }
+    }
+    for rops in seqs {
+        for incs in [1u32, 2] {
+            let two = rops.len() == 2;
+            let name = format!("RP{incs}:{}", rops.iter().map(|o| format!("{o:?}")).collect::<Vec<_>>().join(","));
+            let r2 = rops.clone();
+            v.push(Entry {
+                name,
+                prop: "C04",
+                what: format!("generated: {incs} increment(s) || subscriber thread {rops:?}; values never go backwards, next() afterwards is Ready iff the last marked value is older"),
+                quick_bound: 3,
+                thorough_bound: -1,
+                min_outcomes: 1,
+                body: Box::new(move || reader_program(incs, r2.clone())),
+                thorough_only: two && incs == 2,
             });
         }
     }
